@@ -55,6 +55,19 @@ def main():
     if any(i == 1 for _, i in got) or not want <= got:
         print("SELFTEST FAILED: activation rows misjudged by DaemonRows", sorted(got), r.out[-500:])
         return 1
+    # 6. control skeleton: the walk of a real promotion is accepted, one that records the master before making it
+    #    writable is rejected by SwitchSkelRows
+    walk = ["aux:optnodes", "ro", "ro", "stopio", "stopio", "online", "stoprep", "changesrc", "startrep", "active", "recovery",
+            "stoprep", "resetall", "semisync", "stopio", "startio", "active", "writable", "aux:timing", "master", "finish", "finish"]
+    bad = [c for c in walk if c != "master"]
+    bad.insert(bad.index("writable"), "master")
+    rows_ = [{"kind": "skel", "scn": "selftest", "by": "h2", "seq": w_, "ended": "exit", "count": 1} for w_ in (walk, bad)]
+    r = vlib.tlc(ctx, "SwitchSkelRows", cfg="SwitchSkelRows.cfg", files={"rows.ndjson": "".join(json.dumps(x) + "\n" for x in rows_)},
+                 cont=True, workers=1)
+    got = {int(v["state"]["i"]) for v in r.violations if v["name"] == "Skel_Order"}
+    if got != {2}:
+        print("SELFTEST FAILED: skeleton walks misjudged", got, r.out[-500:])
+        return 1
     print("selftest ok")
     return 0
 
